@@ -29,14 +29,16 @@ TWait      == IsEv("wait") /\ pc[Ev.id] = "entering" /\ Set(Ev.id, "waiting") /\
 TCancel    == IsEv("cancel") /\ Cancel(Ev.id) /\ UNCHANGED took
 TCancelled == IsEv("cancelled") /\ (CancelEnter(Ev.id) \/ CancelWait(Ev.id)) /\ UNCHANGED took
 TRelBegin  == IsEv("relbegin") /\ UNCHANGED took /\
-                \/ pc[Ev.id] = "holding" /\ Set(Ev.id, "relbegin") /\ UNCHANGED <<tokens, cancelled>>   \* Finish or AbortHolding
+                \/ pc[Ev.id] \in {"holding", "retrying"} /\ Set(Ev.id, "relbegin") /\ UNCHANGED <<tokens, cancelled>>   \* Finish, AbortHolding or AbortRetry
                 \/ KF_CancelDrainsToken /\ CancelledExit(Ev.id)
 TRelEnd    == IsEv("relend") /\ pc[Ev.id] = "done" /\ took[Ev.id] = Ev.took /\ UNCHANGED <<vars, took>>
+\* the harness removed the followed file and saw the reader close it
+TRotate    == IsEv("rotate") /\ Rotate(Ev.id) /\ UNCHANGED took
 TExit      == IsEv("exit") /\ UNCHANGED took /\
                 \/ pc[Ev.id] = "done" /\ UNCHANGED vars
                 \/ ~KF_CancelDrainsToken /\ CancelledExit(Ev.id)
 
-TNext == /\ \/ TEnter \/ TAcquired \/ TWait \/ TCancel \/ TCancelled \/ TRelBegin \/ TRelEnd \/ TExit
+TNext == /\ \/ TEnter \/ TAcquired \/ TWait \/ TCancel \/ TCancelled \/ TRelBegin \/ TRelEnd \/ TRotate \/ TExit
             \/ \E r \in Reads : SilentAcq(r) \/ SilentRel(r)
          /\ Keep
 TSpec == TInit /\ [][TNext]_tvars
